@@ -330,16 +330,15 @@ pub fn gen_concat(
         }
         let kind = t.weighted(&ws);
         if cfg.noise_flags > 0 && t.chance(cfg.noise_flags) {
-            // a redundant flag group in front of this token (not before an unrooted tree)
+            // a redundant flag group in front of this token (also before a tree wildcard that begins
+            // the concatenation: flags may appear anywhere that does not split a tree wildcard)
             let v = match t.below(4) {
                 0 => vec![true],
                 1 => vec![false],
                 2 => vec![true, false],
                 _ => vec![false, true, true],
             };
-            if !(kind == 4 && e.is_empty()) {
-                e.push(Tok::Flag(v));
-            }
+            e.push(Tok::Flag(v));
         }
         let first = e.iter().all(|x| x.is_flag());
         let tok = match kind {
@@ -391,9 +390,6 @@ pub fn gen_concat(
                     // form; `x{**/a}` (undelimited) is kept rare
                     !t.chance(30)
                 };
-                if first && e.iter().any(|x| x.is_flag()) && !lead {
-                    continue;
-                }
                 Tok::Tree { lead, trail: t.chance(8) }
             },
             5 => gen_class(t, cfg),
